@@ -1,28 +1,34 @@
 #!/venv/bin/python
-"""seedtest.py <dir with patch.diff [demo.py]> [--props C07,C05 | --all] [--seeds 0,1] [--tier quick]
+"""seedtest.py <dir with patch.diff [demo.py]> [--props C07,C05 | --all] [--seeds 0,1] [--tier quick] [--in-repo]
 
-Apply a seeded change to /repo's working tree, confirm it keeps the existing
-suite at baseline and that its demonstration fails, run the registered checks
-against it, and restore /repo.  Prints one line per check.  Never commits.
+Confirm a seeded change and run the registered checks against it.
+
+Default: the patch is applied to a scratch git worktree of /repo's HEAD under
+/tmp (removed afterwards) and the checks run with VERIF_REPO pointing at it
+and with evidence / replays / build output redirected (VERIF_OUT,
+VERIF_BUILD_TAG), so /repo, /verif/evidence and concurrent work are not
+disturbed.  --in-repo applies it to /repo's working tree instead
+(git -C /repo apply ... ; git -C /repo checkout -- .).  Never commits.
 """
 import argparse
 import json
 import os
 import re
+import shutil
 import subprocess
 import sys
 import time
+from concurrent.futures import ThreadPoolExecutor
 
 VERIF = os.path.dirname(os.path.dirname(os.path.abspath(__file__)))
-REPO = "/repo"
 
 
 def sh(cmd, **kw):
     return subprocess.run(cmd, shell=True, capture_output=True, text=True, **kw)
 
 
-def pytest_counts():
-    p = sh("cd /repo && timeout 1500 /venv/bin/python -m pytest -q -p no:cacheprovider --timeout=900 2>&1 | tail -1")
+def pytest_counts(repo):
+    p = sh("cd %s && PYTHONPATH=%s/src timeout 1500 /venv/bin/python -m pytest -q -p no:cacheprovider --timeout=900 2>&1 | tail -1" % (repo, repo))
     m = re.search(r"(\d+) failed, (\d+) passed", p.stdout)
     if m:
         return int(m.group(2)), int(m.group(1))
@@ -38,47 +44,75 @@ def main():
     ap.add_argument("--seeds", default="0")
     ap.add_argument("--tier", default="quick")
     ap.add_argument("--skip-tests", action="store_true")
+    ap.add_argument("--in-repo", action="store_true")
+    ap.add_argument("--jobs", type=int, default=5)
     a = ap.parse_args()
     a.dir = os.path.abspath(a.dir)
     patch = os.path.join(a.dir, "patch.diff")
     demo = os.path.join(a.dir, "demo.py")
-    if sh("git -C /repo status --porcelain --untracked-files=no").stdout.strip():
-        print("refusing: /repo has uncommitted changes")
-        sys.exit(2)
     manifest = json.load(open(os.path.join(VERIF, "MANIFEST.json")))
     claimed = [c["property_id"] for c in manifest["checks"]]
     props = claimed if a.all else [p for p in a.props.split(",") if p]
+    tag = "seed_%d" % os.getpid()
+    if a.in_repo:
+        repo = "/repo"
+        if sh("git -C /repo status --porcelain --untracked-files=no").stdout.strip():
+            print("refusing: /repo has uncommitted changes")
+            sys.exit(2)
+    else:
+        repo = "/tmp/seedtest_%d" % os.getpid()
+        r = sh("git -C /repo worktree add -q --detach %s HEAD" % repo)
+        if r.returncode != 0:
+            print("cannot create worktree:", r.stderr[-300:])
+            sys.exit(2)
+        if os.path.exists("/repo/src/pystog/_version.py"):
+            shutil.copy("/repo/src/pystog/_version.py", repo + "/src/pystog/_version.py")
+    outdir = os.path.join("/tmp", "seedout_%d" % os.getpid())
     out = {"patch": patch, "results": {}}
-    env = dict(os.environ, PYTHONPATH="/repo/src")
-    if os.path.exists(demo):
-        out["demo_unpatched"] = sh("cd %s && timeout 600 /venv/bin/python demo.py" % a.dir, env=env).returncode
-    ap_ = sh("git -C /repo apply %s" % patch)
-    if ap_.returncode != 0:
-        print("patch does not apply:", ap_.stderr[-300:])
-        sys.exit(2)
+    env = dict(os.environ, PYTHONPATH=repo + "/src")
     try:
+        if os.path.exists(demo):
+            out["demo_unpatched"] = sh("cd %s && timeout 600 /venv/bin/python demo.py" % a.dir, env=env).returncode
+        ap_ = sh("git -C %s apply %s" % (repo, patch))
+        if ap_.returncode != 0:
+            print("patch does not apply:", ap_.stderr[-300:])
+            sys.exit(2)
         if os.path.exists(demo):
             out["demo_patched"] = sh("cd %s && timeout 600 /venv/bin/python demo.py" % a.dir, env=env).returncode
         if not a.skip_tests:
-            out["tests"] = pytest_counts()
-        for p in props:
-            for seed in a.seeds.split(","):
-                t0 = time.time()
-                r = sh("cd %s && VERIF_SEED=%s /venv/bin/python harness/vcheck.py %s --tier %s" % (VERIF, seed, p, a.tier))
-                lines = [l for l in r.stdout.splitlines() if l.startswith("VIOLATION") or l.startswith("KNOWN-FINDING")]
-                msg = ""
-                m = re.search(r"replay=(\S+)", " ".join(lines))
-                if m and os.path.exists(os.path.join(VERIF, m.group(1))):
-                    try:
-                        d = json.load(open(os.path.join(VERIF, m.group(1))))
-                        msg = (d.get("message") or "; ".join(d.get("no_longer_checks", [])))[:230]
-                    except Exception:
-                        pass
-                out["results"]["%s/seed%s" % (p, seed)] = {"exit": r.returncode, "lines": [l[:160] for l in lines if l.startswith("VIOLATION")], "message": msg,
-                                                          "wall_s": round(time.time() - t0, 1)}
-                print("%s seed=%s exit=%d %s %s" % (p, seed, r.returncode, "no-failing-input-found" if any("no-failing-input-found" in l for l in lines) else "", msg), flush=True)
+            out["tests"] = pytest_counts(repo)
+
+        def one(job):
+            p, seed = job
+            t0 = time.time()
+            e = dict(os.environ, VERIF_REPO=repo, VERIF_SEED=str(seed), VERIF_OUT=outdir, VERIF_BUILD_TAG="%s_%s" % (tag, p))
+            r = sh("cd %s && /venv/bin/python harness/vcheck.py %s --tier %s" % (VERIF, p, a.tier), env=e)
+            lines = [l for l in r.stdout.splitlines() if l.startswith("VIOLATION")]
+            msg = ""
+            m = re.search(r"replay=(\S+)", " ".join(lines))
+            if m and os.path.exists(os.path.join(outdir, m.group(1))):
+                try:
+                    d = json.load(open(os.path.join(outdir, m.group(1))))
+                    msg = (d.get("message") or "; ".join(d.get("no_longer_checks", [])))[:230]
+                except Exception:
+                    pass
+            if r.returncode not in (0, 1):
+                msg = "CHECK CRASHED: " + (r.stderr or r.stdout)[-300:]
+            shutil.rmtree(os.path.join(VERIF, "build", "tag_%s_%s" % (tag, p)), ignore_errors=True)
+            return p, seed, r.returncode, lines, msg, round(time.time() - t0, 1)
+
+        jobs = [(p, s) for p in props for s in a.seeds.split(",")]
+        with ThreadPoolExecutor(max_workers=a.jobs) as ex:
+            for p, seed, rc, lines, msg, wall in ex.map(one, jobs):
+                nf = any("no-failing-input-found" in l for l in lines)
+                out["results"]["%s/seed%s" % (p, seed)] = {"exit": rc, "no_failing_input_found": nf, "message": msg, "wall_s": wall}
+                print("%s seed=%s exit=%d %s %s" % (p, seed, rc, "no-failing-input-found" if nf else "", msg), flush=True)
     finally:
-        sh("git -C /repo checkout -- .")
+        if a.in_repo:
+            sh("git -C /repo checkout -- .")
+        else:
+            sh("git -C /repo worktree remove --force %s" % repo)
+        shutil.rmtree(outdir, ignore_errors=True)
     print(json.dumps({k: v for k, v in out.items() if k != "results"}))
     json.dump(out, open(os.path.join(a.dir, "seedtest_result.json"), "w"), indent=1)
 
